@@ -126,6 +126,12 @@ func (p *printer) render(i int, l *absLine, crlf bool) []byte {
 		body = "goroutine running on other thread; stack unavailable"
 	case "func":
 		body = lx.fnOf(l.P.Tok).text + "(" + lx.argsOf(l.P.Tok).text + ")"
+	case "funcbad": // accepted as a function line, its argument list does not parse
+		body = lx.fnOf(l.P.Tok).text + "(" + corruptArgsBad[rng.Intn(len(corruptArgsBad))] + ")"
+	case "filebad": // accepted as a file line, its line number does not parse
+		body = "/src/bad.go:" + []string{"1234567890123456789", "99999999999999999999", "18446744073709551616000"}[rng.Intn(3)] + " +0x1"
+	case "createdbad": // accepted as a created-by line, its symbol does not parse
+		body = "created by " + []string{"a/b", "x/y/z", "example.com/p"}[rng.Intn(3)]
 	case "file":
 		body = lx.fileOf(l.P.Tok).text
 	case "created":
@@ -166,17 +172,24 @@ func (p *printer) render(i int, l *absLine, crlf bool) []byte {
 	return []byte(s)
 }
 
+// wildCall stands for a call whose symbol or path absorbed stray white space (possible only in
+// malformed input): it is counted, its fields are not compared.
+var wildCall = richCall{Complete: "*", Exported: -1, Args: []richArg{}}
+
 func (p *printer) expectCall(a *absCall, created bool) richCall {
 	lx := p.lx
 	if a.Fn == "unavail" {
 		return richCall{Path: "<unavailable>", SrcName: "<unavailable>", Exported: -1, Args: []richArg{}}
+	}
+	if len(a.Lead) != 0 || len(a.Flead) != 0 {
+		return wildCall
 	}
 	fn := lx.fnOf(a.Fn)
 	rc := richCall{Complete: fn.complete, ImportPath: fn.importPath, Name: fn.name, DirName: fn.dirName, IsPkgMain: fn.isMain,
 		Exported: fn.exported, Args: []richArg{}}
 	if created {
 		rc.Complete += p.created[a.Fn]
-	} else {
+	} else if a.Fn != "X" {
 		ar := lx.argsOf(a.Fn)
 		rc.Args = richArgsOfNodes(ar.nodes)
 		rc.ArgsElided = ar.elided
@@ -184,10 +197,8 @@ func (p *printer) expectCall(a *absCall, created bool) richCall {
 	if a.File != "" {
 		f := lx.fileOf(a.File)
 		rc.Path, rc.Line, rc.SrcName, rc.DirSrc = f.path, f.line, f.srcName, f.dirSrc
-		rc.CallImport = fn.importPath
-	} else if created {
-		rc.CallImport = fn.importPath
 	}
+	rc.CallImport = fn.importPath
 	return rc
 }
 
@@ -208,7 +219,11 @@ func (p *printer) expectSnap(mode string, gs []absG) []richG {
 			r.Calls = append(r.Calls, p.expectCall(&g.Calls[j], false))
 		}
 		for j := range g.Created {
-			r.Created = append(r.Created, p.expectCall(&g.Created[j], !g.Race))
+			rc := p.expectCall(&g.Created[j], !g.Race)
+			if !g.Race && g.Created[j].File == "" && len(g.Calls) == 1 && g.Calls[0].Fn == "unavail" {
+				rc.CallImport = "" // a creator directly after an unavailable stack gets its import path with its file line
+			}
+			r.Created = append(r.Created, rc)
 		}
 		out = append(out, r)
 	}
@@ -228,12 +243,20 @@ func realSnap(s *stack.Snapshot, want []richG) []richG {
 			if i < len(want) && j < len(want[i].Calls) {
 				we = want[i].Calls[j].Exported
 			}
+			if i < len(want) && j < len(want[i].Calls) && want[i].Calls[j].Complete == "*" {
+				r.Calls = append(r.Calls, wildCall)
+				continue
+			}
 			r.Calls = append(r.Calls, richCallOfReal(&g.Stack.Calls[j], we))
 		}
 		for j := range g.CreatedBy.Calls {
 			we := -1
 			if i < len(want) && j < len(want[i].Created) {
 				we = want[i].Created[j].Exported
+			}
+			if i < len(want) && j < len(want[i].Created) && want[i].Created[j].Complete == "*" {
+				r.Created = append(r.Created, wildCall)
+				continue
 			}
 			r.Created = append(r.Created, richCallOfReal(&g.CreatedBy.Calls[j], we))
 		}
@@ -256,6 +279,9 @@ func checkPrintCase(res *Result, pc *printCase, rng *rand.Rand, full bool, tag s
 	prop := "C01"
 	if pc.Mode == "race" {
 		prop = "C08"
+	}
+	if pc.Mode == "mut" {
+		prop = "C07" // malformed input: what is parsed of it is a matter of delimitation, not of fidelity
 	}
 	cmp := func(i int, c *specCall, o *callObs) (bool, string, interface{}, interface{}) {
 		want := p.expectSnap(pc.Mode, c.Snap)
